@@ -305,6 +305,11 @@ func checkC05(c *Check) {
 			"a cookie is written that was not built by the cookie builder for the handler's own cookie name")
 	}
 
+	// the cookie put on an answer stays on that answer (no shared header backing array), and a presented session
+	// that the store could not destroy is reported as an error by the store (C09.R5), which stops the redirect (R2)
+	headersOwnBacking(c, "C05.R5", R)
+	storesReportFailedRemoval(c, "C05.R2")
+
 	// ---- R6: the cookie call under LogoutMatch true has timeout 0 and a constant value
 	found := false
 	for _, ci := range callsToFn(R.OIDCProcess, m.CookieBuilder) {
